@@ -64,11 +64,11 @@ def relayout(rng, X, ep):
     """same episodes, new labels (order-preserving or not) and a new block order"""
     if not ep:
         return X
-    eps = pykoop.split_episodes(X, episode_feature=True)
+    eps = st.ref_split(X, True)
     labels = rng.sample(range(0, 20), len(eps))
     blocks = [(l, Xe) for l, (_, Xe) in zip(labels, eps)]
     rng.shuffle(blocks)
-    return pykoop.combine_episodes(blocks, episode_feature=True)
+    return st.ref_combine(blocks, True)
 
 
 def oracle(case, rng, thorough=False):
@@ -81,7 +81,7 @@ def oracle(case, rng, thorough=False):
     A = rs.uniform(-0.6, 0.6, (nx, nx))
     B = rs.uniform(-1, 1, (nx, nu))
     out = []
-    for l, Xe in pykoop.split_episodes(X, episode_feature=ep):
+    for l, Xe in st.ref_split(X, ep):
         n = max(Xe.shape[0], nx + nu + 3)
         x = np.zeros((n, nx))
         u = rs.uniform(-1, 1, (n, nu))
@@ -89,14 +89,14 @@ def oracle(case, rng, thorough=False):
         for k in range(n - 1):
             x[k + 1] = A @ x[k] + B @ u[k] + 0.01 * rs.randn(nx)
         out.append((l, np.hstack((x, u))))
-    X = pykoop.combine_episodes(out, episode_feature=ep)
+    X = st.ref_combine(out, ep)
     Xu, Xs = pykoop.shift_episodes(X, n_inputs=nu, episode_feature=ep)
     # the shifted side never contains inputs / the pairs are within-episode consecutive
     if Xs.shape[1] != e + nx:
         return 'shifted matrix contains input columns', {}
-    for l, Xe in pykoop.split_episodes(X, episode_feature=ep):
-        ue = [Ue for ll, Ue in pykoop.split_episodes(Xu, episode_feature=ep) if ll == l]
-        se = [Se for ll, Se in pykoop.split_episodes(Xs, episode_feature=ep) if ll == l]
+    for l, Xe in st.ref_split(X, ep):
+        ue = [Ue for ll, Ue in st.ref_split(Xu, ep) if ll == l]
+        se = [Se for ll, Se in st.ref_split(Xs, ep) if ll == l]
         if Xe.shape[0] >= 2:
             if not (np.array_equal(ue[0], Xe[:-1]) and np.array_equal(se[0], Xe[1:, :nx])):
                 return f'episode {l}: shift_episodes is not (rows 0..n-2, states of rows 1..n-1)', {}
